@@ -82,6 +82,9 @@ def run(ctx):
             ctxs = []
             if re.search(r'\$\([^)]*\n', e) or re.search(r'`[^`]*\n', e) or re.search(r'[<>]\([^)]*\n', e): ctxs.append('+multiline-substitution')
             if kind == 'unterminated-heredoc' and re.search(r'[({]|\bdo\b|\bthen\b', e): ctxs.append('+heredoc-in-compound')
+            # is the syntax error inside the operand of a ${...}?  (bashlex delimits ${...} at the first '}' and never looks inside)
+            e2 = re.sub(r'\$\{[^}]*\}', 'X', e)
+            if e2 != e and have_bash and not bash_rejects(e2): ctxs.append('+in-brace-operand')
             sig = 'accepted:' + kind.split(':')[0] + ''.join(ctxs)
             sig_count[sig] += 1
             fid = common.match_finding(findings, sig, e)
